@@ -195,7 +195,7 @@ def reset_bus():
 
 
 def run_internal(cfg, devs, speed=(1, 1), initial=0, stim=(), t_end=3_000_000_003, fail=None, adapters=None,
-                 on_start=None, inject=None, delays=None, early=None):
+                 on_start=None, inject=None, delays=None, early=None, bus=None):
     """runs the simulation on the internal bus; stim: [(real ns, device id)]; returns dict:
        per: {device: [(time, inputs)]}, error: None|str, tasks info"""
     from tickit.core.management.event_router import InverseWiring
@@ -211,6 +211,10 @@ def run_internal(cfg, devs, speed=(1, 1), initial=0, stim=(), t_end=3_000_000_00
     TICKLOG.clear()
     info = {}
     orig_call = tk.Ticker.__call__
+    if bus is not None:
+        import cbus
+        iface = cbus.make_interface(bus)
+        get_interface = lambda _name: iface  # noqa: E731  -- a conforming backend substituted for the internal one
 
     async def logged_call(self, time, update_components):
         loop = asyncio.get_event_loop()
@@ -272,15 +276,21 @@ def run_internal(cfg, devs, speed=(1, 1), initial=0, stim=(), t_end=3_000_000_00
 
             loop.step_hook = hook
         for (r, who) in stim:
-            await asyncio.sleep(r / 1e9 - loop.vt)
+            if r / 1e9 > loop.vt:      # stimuli at one instant are raised together, without yielding in between
+                await asyncio.sleep(r / 1e9 - loop.vt)
             await REG[who].raise_interrupt()
         await asyncio.sleep(t_end / 1e9 - loop.vt)
         info["steps"] = loop.steps
         errs = []
         for t in tasks:
             if t.done() and not t.cancelled() and t.exception() is not None:
-                errs.append(repr(t.exception()))
+                import traceback
+                tb = traceback.extract_tb(t.exception().__traceback__)
+                where = " <- ".join(f"{f.filename.split('/')[-1]}:{f.lineno}:{f.name}" for f in reversed(tb[-3:]))
+                errs.append(repr(t.exception()) + (" at " + where if where else ""))
         info["errors"] = errs
+        if bus is not None:
+            info["bus"] = dict(delivered=bus.delivered, choices=bus.choices, max_pending=bus.max_pending, errors=list(bus.errors))
         info["tasks_done"] = [t.done() for t in tasks]
         for t in tasks:
             t.cancel()
@@ -311,7 +321,7 @@ def run_internal(cfg, devs, speed=(1, 1), initial=0, stim=(), t_end=3_000_000_00
     return dict(per=per, trace=[(c, t, dict(i)) for (c, t, i) in TRACE], trace_rt=list(TRACE_RT), ticklog=ticklog,
                 mticks=mticks, inj=info.get("inj"), steps=info.get("steps"),
                 early_before_scheduler=info.get("early_before_scheduler"),
-                error=err, errors=info.get("errors", []), tasks_done=info.get("tasks_done"))
+                error=err, errors=info.get("errors", []), tasks_done=info.get("tasks_done"), bus=info.get("bus"))
 
 
 # ------------------------------------------------------------------ generators
